@@ -1,4 +1,10 @@
 import Pun.Lemmas.Elem
+import Mathlib.Tactic.Tauto
+import Mathlib.Algebra.Order.Ring.Abs
+import Mathlib.Algebra.Order.Ring.Basic
+import Mathlib.Algebra.Order.Field.Basic
+import Mathlib.Algebra.Order.GroupWithZero.Basic
+import Mathlib.Algebra.Order.Monoid.Unbundled.Pow
 /-!
 # C05 — interval elementary functions and integer powers enclose every pointwise value
 
@@ -119,27 +125,6 @@ theorem cos_sound (s : ℚ → ℚ) (T : ℚ) (hT : 0 < T)
       exact ⟨anti yx yh hyx0 hyx_le b2, anti yl yx a1 hyl_le (le_trans hyx_le b2)⟩
 
 
-/-- the scalar cosine never falls off the end (never returns Python `None`) on reduced endpoints -/
-theorem cos_total (w yl yh T : ℚ) (hT : 0 < T) (hyl0 : 0 ≤ yl) (hylT : yl < T) (hyh0 : 0 ≤ yh) (hyhT : yh < T) :
-    (cosShape w yl yh T).isSome = true := by
-  unfold cosShape
-  simp only
-  split_ifs with c0 c1 c2 c3 c4 c5
-  all_goals first
-    | rfl
-    | (exfalso
-       rcases le_total yl (T / 2) with a | a <;> rcases le_total yh (T / 2) with b | b <;>
-         rcases le_or_gt yl yh with c | c
-       · exact c5 ⟨c, ⟨hyl0, a⟩, ⟨hyh0, b⟩⟩
-       · exact c1 (Or.inl ⟨c, ⟨hyl0, a⟩, ⟨hyh0, b⟩⟩)
-       · exact c4 ⟨⟨hyl0, a⟩, ⟨b, le_of_lt hyhT⟩⟩
-       · exact c4 ⟨⟨hyl0, a⟩, ⟨b, le_of_lt hyhT⟩⟩
-       · exact c3 ⟨⟨a, le_of_lt hylT⟩, ⟨hyh0, b⟩⟩
-       · exact c3 ⟨⟨a, le_of_lt hylT⟩, ⟨hyh0, b⟩⟩
-       · exact c2 ⟨c, ⟨a, le_of_lt hylT⟩, ⟨b, le_of_lt hyhT⟩⟩
-       · exact c1 (Or.inr ⟨c, ⟨a, le_of_lt hylT⟩, ⟨b, le_of_lt hyhT⟩⟩))
-
-
 theorem sin_sound (s : ℚ → ℚ) (T : ℚ) (hT : 0 < T)
     (per : ∀ (x : ℚ) (k : ℤ), s (x + k * T) = s x)
     (bd : ∀ x, -1 ≤ s x ∧ s x ≤ 1)
@@ -253,5 +238,655 @@ theorem sin_sound (s : ℚ → ℚ) (T : ℚ) (hT : 0 < T)
       · exact ⟨a2 yx yh (le_trans a p) q b', a2 yl yx a p (le_trans q b')⟩
       · exact absurd hwr (not_lt.mpr c)
 
+
+
+/-! ## totality, array form = scalar form -/
+
+
+theorem cos_total (w yl yh T : ℚ) (hT : 0 < T) (hyl0 : 0 ≤ yl) (hylT : yl ≤ T) (hyh0 : 0 ≤ yh) (hyhT : yh ≤ T) :
+    (cosShape w yl yh T).isSome = true := by
+  unfold cosShape
+  simp only
+  split_ifs with c0 c1 c2 c3 c4 c5
+  all_goals first
+    | rfl
+    | (exfalso
+       rcases le_total yl (T / 2) with a | a <;> rcases le_total yh (T / 2) with b | b <;>
+         rcases le_or_gt yl yh with c | c
+       · exact c5 ⟨c, ⟨hyl0, a⟩, ⟨hyh0, b⟩⟩
+       · exact c1 (Or.inl ⟨c, ⟨hyl0, a⟩, ⟨hyh0, b⟩⟩)
+       · exact c4 ⟨⟨hyl0, a⟩, ⟨b, hyhT⟩⟩
+       · exact c4 ⟨⟨hyl0, a⟩, ⟨b, hyhT⟩⟩
+       · exact c3 ⟨⟨a, hylT⟩, ⟨hyh0, b⟩⟩
+       · exact c3 ⟨⟨a, hylT⟩, ⟨hyh0, b⟩⟩
+       · exact c2 ⟨c, ⟨a, hylT⟩, ⟨b, hyhT⟩⟩
+       · exact c1 (Or.inr ⟨c, ⟨a, hylT⟩, ⟨b, hyhT⟩⟩))
+
+theorem cosVec_eq_scalar (w yl yh T : ℚ) (hT : 0 < T) (hyl0 : 0 ≤ yl) (hylT : yl ≤ T) (hyh0 : 0 ≤ yh) (hyhT : yh ≤ T) :
+    cosShape w yl yh T = some (cosVecShape w yl yh T) := by
+  have ht := cos_total w yl yh T hT hyl0 hylT hyh0 hyhT
+  unfold cosShape at ht ⊢
+  unfold cosVecShape ov
+  simp only at ht ⊢
+  by_cases c0 : T ≤ w
+  · simp only [c0, if_true, true_or]
+  · by_cases c1 : (yh < yl ∧ (0 ≤ yl ∧ yl ≤ T / 2) ∧ (0 ≤ yh ∧ yh ≤ T / 2)) ∨ (yh < yl ∧ (T / 2 ≤ yl ∧ yl ≤ T) ∧ (T / 2 ≤ yh ∧ yh ≤ T))
+    · simp only [c0, c1, if_true, if_false, or_true]
+    · have c1' : ¬ (T ≤ w ∨ (yh < yl ∧ (0 ≤ yl ∧ yl ≤ T / 2) ∧ (0 ≤ yh ∧ yh ≤ T / 2)) ∨ (yh < yl ∧ (T / 2 ≤ yl ∧ yl ≤ T) ∧ (T / 2 ≤ yh ∧ yh ≤ T))) := by
+        rintro (h | h); exact c0 h; exact c1 h
+      simp only [c0, c1, c1', if_false, false_or, or_false] at ht ⊢
+      split_ifs at ht ⊢ <;> first | rfl | (exact absurd ht (by simp))
+
+
+
+/-- array form = scalar form, sine -/
+theorem sinVec_eq_scalar (w yl yh T : ℚ) (hT : 0 < T) (hyl0 : 0 ≤ yl) (hylT : yl ≤ T) (hyh0 : 0 ≤ yh) (hyhT : yh ≤ T) :
+    sinShape w yl yh T = some (sinVecShape w yl yh T) := by
+  unfold sinShape sinVecShape ov
+  simp only
+  have he1 : ((0 ≤ yl ∧ yh ≤ T / 4) ∧ yl ≤ yh) ↔ ((0 ≤ yl ∧ yl ≤ T / 4) ∧ (0 ≤ yh ∧ yh ≤ T / 4) ∧ yl ≤ yh) := by
+    constructor
+    · rintro ⟨⟨a, b⟩, c⟩; exact ⟨⟨a, by linarith⟩, ⟨by linarith, b⟩, c⟩
+    · rintro ⟨⟨a, _⟩, ⟨_, b⟩, c⟩; exact ⟨⟨a, b⟩, c⟩
+  have he2 : ((T / 4 ≤ yl ∧ yh ≤ 3 * (T / 4)) ∧ yl ≤ yh) ↔ ((T / 4 ≤ yl ∧ yl ≤ 3 * (T / 4)) ∧ (T / 4 ≤ yh ∧ yh ≤ 3 * (T / 4)) ∧ yl ≤ yh) := by
+    constructor
+    · rintro ⟨⟨a, b⟩, c⟩; exact ⟨⟨a, by linarith⟩, ⟨by linarith, b⟩, c⟩
+    · rintro ⟨⟨a, _⟩, ⟨_, b⟩, c⟩; exact ⟨⟨a, b⟩, c⟩
+  have he3 : ((3 * (T / 4) ≤ yl ∧ yh ≤ T) ∧ yl ≤ yh) ↔ ((3 * (T / 4) ≤ yl ∧ yl ≤ T) ∧ (3 * (T / 4) ≤ yh ∧ yh ≤ T) ∧ yl ≤ yh) := by
+    constructor
+    · rintro ⟨⟨a, b⟩, c⟩; exact ⟨⟨a, by linarith⟩, ⟨by linarith, b⟩, c⟩
+    · rintro ⟨⟨a, _⟩, ⟨_, b⟩, c⟩; exact ⟨⟨a, b⟩, c⟩
+  have hlt : yh < yl ↔ ¬ yl ≤ yh := not_le.symm
+  simp only [he1, he2, he3, hlt]
+  by_cases c0 : T ≤ w
+  · simp only [c0, if_true]
+  simp only [c0, if_false]
+  by_cases m1 : (0 ≤ yl ∧ yl ≤ T / 4) ∧ (0 ≤ yh ∧ yh ≤ T / 4) ∧ yl ≤ yh
+  · rw [if_pos m1, if_pos m1]
+  simp only [m1, if_false, false_or]
+  by_cases m2 : (T / 4 ≤ yl ∧ yl ≤ 3 * (T / 4)) ∧ (T / 4 ≤ yh ∧ yh ≤ 3 * (T / 4)) ∧ yl ≤ yh
+  · rw [if_pos m2, if_pos m2]
+  simp only [m2, if_false]
+  by_cases m3 : (3 * (T / 4) ≤ yl ∧ yl ≤ T) ∧ (3 * (T / 4) ≤ yh ∧ yh ≤ T) ∧ yl ≤ yh
+  · rw [if_pos m3, if_pos m3]
+  simp only [m3, if_false, or_false]
+  split_ifs with k1 k2 k3 k4
+  · rfl
+  · rfl
+  · rfl
+  · rfl
+  · exfalso
+    have hl : (0 ≤ yl ∧ yl ≤ T / 4) ∨ (T / 4 ≤ yl ∧ yl ≤ 3 * (T / 4)) ∨ (3 * (T / 4) ≤ yl ∧ yl ≤ T) := by
+      rcases le_total yl (T / 4) with a | a
+      · exact Or.inl ⟨hyl0, a⟩
+      · rcases le_total yl (3 * (T / 4)) with a' | a'
+        · exact Or.inr (Or.inl ⟨a, a'⟩)
+        · exact Or.inr (Or.inr ⟨a', hylT⟩)
+    have hh : (0 ≤ yh ∧ yh ≤ T / 4) ∨ (T / 4 ≤ yh ∧ yh ≤ 3 * (T / 4)) ∨ (3 * (T / 4) ≤ yh ∧ yh ≤ T) := by
+      rcases le_total yh (T / 4) with a | a
+      · exact Or.inl ⟨hyh0, a⟩
+      · rcases le_total yh (3 * (T / 4)) with a' | a'
+        · exact Or.inr (Or.inl ⟨a, a'⟩)
+        · exact Or.inr (Or.inr ⟨a', hyhT⟩)
+    rcases hl with l | l | l <;> rcases hh with h | h | h
+    · by_cases c : yl ≤ yh
+      · exact m1 ⟨l, h, c⟩
+      · exact k1 (Or.inl ⟨l, h, c⟩)
+    · exact k3 (Or.inl ⟨l, h⟩)
+    · exact k1 (Or.inr (Or.inl ⟨l, h⟩))
+    · exact k4 (Or.inl ⟨l, h⟩)
+    · by_cases c : yl ≤ yh
+      · exact m2 ⟨l, h, c⟩
+      · exact k1 (Or.inr (Or.inr (Or.inl ⟨l, h, c⟩)))
+    · exact k4 (Or.inr ⟨l, h⟩)
+    · exact k2 ⟨l, h⟩
+    · exact k3 (Or.inr ⟨l, h⟩)
+    · by_cases c : yl ≤ yh
+      · exact m3 ⟨l, h, c⟩
+      · exact k1 (Or.inr (Or.inr (Or.inr ⟨l, h, c⟩)))
+
+
+/-! ## tangent -/
+
+
+theorem tan_sound (t : ℚ → ℚ) (P : ℚ) (hP : 0 < P)
+    (per : ∀ (x : ℚ) (k : ℤ), t (x + k * P) = t x)
+    (m1 : ∀ u v, 0 ≤ u → u ≤ v → v < P / 2 → t u ≤ t v)
+    (m2 : ∀ u v, P / 2 < u → u ≤ v → v ≤ P → t u ≤ t v)
+    (lo hi x zl zh zx : ℚ) (kl kh kx : ℤ)
+    (hlo : lo = zl + kl * P) (hzl0 : 0 ≤ zl) (hzlP : zl < P)
+    (hhi : hi = zh + kh * P) (hzh0 : 0 ≤ zh) (hzhP : zh < P)
+    (hx : x = zx + kx * P) (hzx0 : 0 ≤ zx) (hzxP : zx < P)
+    (h1 : lo ≤ x) (h2 : x ≤ hi)
+    (hfin : tanInf (hi - lo) zl zh P = false) :
+    zx ≠ P / 2 ∧ t zl ≤ t x ∧ t x ≤ t zh := by
+  have hsx : t x = t zx := by rw [hx, per]
+  rw [hsx]
+  have hP0 : t P = t 0 := by have := per 0 1; simpa using this
+  unfold tanInf at hfin
+  simp only [decide_eq_false_iff_not, not_or] at hfin
+  obtain ⟨hw, c1b, c1c, c1d⟩ := hfin
+  have hr := reduced_range P hP lo hi x zl zh zx kl kh kx hlo hzl0 hzlP hhi hzh0 hzhP hx hzx0 hzxP h1 h2 (not_le.mp hw)
+  rcases hr with ⟨p, q⟩ | ⟨hwr, pq⟩
+  · rcases le_or_gt zl (P / 2) with a | a
+    · have hzh : zh < P / 2 := by
+        by_contra hc
+        exact c1d ⟨⟨hzl0, a⟩, ⟨not_lt.mp hc, le_of_lt hzhP⟩⟩
+      exact ⟨by intro e; linarith, m1 zl zx hzl0 p (by linarith), m1 zx zh hzx0 q hzh⟩
+    · exact ⟨by intro e; linarith, m2 zl zx a p (le_of_lt hzxP), m2 zx zh (by linarith) q (le_of_lt hzhP)⟩
+  · have a : P / 2 < zl := by
+      by_contra hc
+      have hc' := not_lt.mp hc
+      exact c1b ⟨hwr, ⟨hzl0, hc'⟩, ⟨hzh0, by linarith⟩⟩
+    have b : zh < P / 2 := by
+      by_contra hc
+      have hc' := not_lt.mp hc
+      exact c1c ⟨hwr, ⟨le_of_lt a, le_of_lt hzlP⟩, ⟨hc', le_of_lt hzhP⟩⟩
+    rcases pq with p | q
+    · refine ⟨by intro e; linarith, m2 zl zx a p (le_of_lt hzxP), ?_⟩
+      calc t zx ≤ t P := m2 zx P (by linarith) (le_of_lt hzxP) (le_refl _)
+        _ = t 0 := hP0
+        _ ≤ t zh := m1 0 zh (le_refl _) hzh0 b
+    · refine ⟨by intro e; linarith, ?_, m1 zx zh hzx0 q b⟩
+      calc t zl ≤ t P := m2 zl P a (le_of_lt hzlP) (le_refl _)
+        _ = t 0 := hP0
+        _ ≤ t zx := m1 0 zx (le_refl _) hzx0 (by linarith)
+
+/-- a width of at least one period always gives the unbounded interval -/
+theorem tan_wide (w zl zh P : ℚ) (h : P ≤ w) : tanInf w zl zh P = true := by
+  unfold tanInf; simp [h]
+
+
+/-! ## statements about the functions the driver executes -/
+
+
+theorem fmodR_decomp (x T : ℚ) (hT : 0 < T) :
+    x = fmodR x T + (⌊x / T⌋ : ℤ) * T ∧ 0 ≤ fmodR x T ∧ fmodR x T < T := by
+  have h := fmod_decomp x T hT
+  have e0 : (x / T).floor = ⌊x / T⌋ := by rw [Rat.floor_def', Rat.floor_def]
+  have e : fmodR x T = x - T * ⌊x / T⌋ := by
+    unfold fmodR; rw [e0]
+  rw [e]; exact h
+
+theorem mkI_ok {a b : ℚ} {p : ℚ × ℚ} (h : mkI a b = .ok p) : p = (a, b) ∧ a ≤ b := by
+  unfold mkI at h
+  split_ifs at h with c
+  · exact ⟨by cases h; rfl, c⟩
+
+/-- **sine encloses** : what the scalar form returns on `[lo,hi]` (reduced endpoints computed by the
+model's `%`, values of `s` at them) contains `s x` for every `x ∈ [lo,hi]`, for any `s` with period
+`T`, bounded by ±1, increasing / decreasing / increasing on the three pieces cut at `T/4`, `3T/4`. -/
+theorem sin_encloses (s : ℚ → ℚ) (T : ℚ) (hT : 0 < T)
+    (per : ∀ (x : ℚ) (k : ℤ), s (x + k * T) = s x)
+    (bd : ∀ x, -1 ≤ s x ∧ s x ≤ 1)
+    (m1 : ∀ u v, 0 ≤ u → u ≤ v → v ≤ T / 4 → s u ≤ s v)
+    (a2 : ∀ u v, T / 4 ≤ u → u ≤ v → v ≤ 3 * (T / 4) → s v ≤ s u)
+    (m3 : ∀ u v, 3 * (T / 4) ≤ u → u ≤ v → v ≤ T → s u ≤ s v)
+    (lo hi x : ℚ) (h1 : lo ≤ x) (h2 : x ≤ hi) (p : ℚ × ℚ)
+    (hp : sinI T (hi - lo) (fmodR lo T) (fmodR hi T) (s (fmodR lo T)) (s (fmodR hi T)) = .ok p) :
+    p.1 ≤ s x ∧ s x ≤ p.2 := by
+  obtain ⟨dl, dl0, dlT⟩ := fmodR_decomp lo T hT
+  obtain ⟨dh, dh0, dhT⟩ := fmodR_decomp hi T hT
+  obtain ⟨dx, dx0, dxT⟩ := fmodR_decomp x T hT
+  unfold sinI trigI at hp
+  cases hs : sinShape (hi - lo) (fmodR lo T) (fmodR hi T) T with
+  | none => rw [hs] at hp; cases hp
+  | some sh =>
+    rw [hs] at hp
+    obtain ⟨e, _⟩ := mkI_ok hp
+    rw [e]
+    exact sin_sound s T hT per bd m1 a2 m3 lo hi x _ _ _ _ _ _ dl dl0 dlT dh dh0 dhT dx dx0 dxT h1 h2 sh hs
+
+/-- the scalar sine never fails on a proper interval: neither falls off the end nor trips the
+constructor's assertion -/
+theorem sin_returns (s : ℚ → ℚ) (T : ℚ) (hT : 0 < T)
+    (per : ∀ (x : ℚ) (k : ℤ), s (x + k * T) = s x)
+    (bd : ∀ x, -1 ≤ s x ∧ s x ≤ 1)
+    (m1 : ∀ u v, 0 ≤ u → u ≤ v → v ≤ T / 4 → s u ≤ s v)
+    (a2 : ∀ u v, T / 4 ≤ u → u ≤ v → v ≤ 3 * (T / 4) → s v ≤ s u)
+    (m3 : ∀ u v, 3 * (T / 4) ≤ u → u ≤ v → v ≤ T → s u ≤ s v)
+    (lo hi : ℚ) (h : lo ≤ hi) :
+    ∃ p, sinI T (hi - lo) (fmodR lo T) (fmodR hi T) (s (fmodR lo T)) (s (fmodR hi T)) = .ok p := by
+  obtain ⟨dl, dl0, dlT⟩ := fmodR_decomp lo T hT
+  obtain ⟨dh, dh0, dhT⟩ := fmodR_decomp hi T hT
+  have hv := sinVec_eq_scalar (hi - lo) (fmodR lo T) (fmodR hi T) T hT dl0 (le_of_lt dlT) dh0 (le_of_lt dhT)
+  have hs := sin_sound s T hT per bd m1 a2 m3 lo hi lo _ _ _ _ _ _ dl dl0 dlT dh dh0 dhT dl dl0 dlT (le_refl _) h _ hv
+  unfold sinI trigI mkI
+  rw [hv]; dsimp only
+  rw [if_pos (le_trans hs.1 hs.2)]
+  exact ⟨_, rfl⟩
+
+theorem cos_encloses (s : ℚ → ℚ) (T : ℚ) (hT : 0 < T)
+    (per : ∀ (x : ℚ) (k : ℤ), s (x + k * T) = s x)
+    (bd : ∀ x, -1 ≤ s x ∧ s x ≤ 1)
+    (anti : ∀ u v, 0 ≤ u → u ≤ v → v ≤ T / 2 → s v ≤ s u)
+    (mono : ∀ u v, T / 2 ≤ u → u ≤ v → v ≤ T → s u ≤ s v)
+    (lo hi x : ℚ) (h1 : lo ≤ x) (h2 : x ≤ hi) (p : ℚ × ℚ)
+    (hp : cosI T (hi - lo) (fmodR lo T) (fmodR hi T) (s (fmodR lo T)) (s (fmodR hi T)) = .ok p) :
+    p.1 ≤ s x ∧ s x ≤ p.2 := by
+  obtain ⟨dl, dl0, dlT⟩ := fmodR_decomp lo T hT
+  obtain ⟨dh, dh0, dhT⟩ := fmodR_decomp hi T hT
+  obtain ⟨dx, dx0, dxT⟩ := fmodR_decomp x T hT
+  unfold cosI trigI at hp
+  cases hs : cosShape (hi - lo) (fmodR lo T) (fmodR hi T) T with
+  | none => rw [hs] at hp; cases hp
+  | some sh =>
+    rw [hs] at hp
+    obtain ⟨e, _⟩ := mkI_ok hp
+    rw [e]
+    exact cos_sound s T hT per bd anti mono lo hi x _ _ _ _ _ _ dl dl0 dlT dh dh0 dhT dx dx0 dxT h1 h2 sh hs
+
+theorem cos_returns (s : ℚ → ℚ) (T : ℚ) (hT : 0 < T)
+    (per : ∀ (x : ℚ) (k : ℤ), s (x + k * T) = s x)
+    (bd : ∀ x, -1 ≤ s x ∧ s x ≤ 1)
+    (anti : ∀ u v, 0 ≤ u → u ≤ v → v ≤ T / 2 → s v ≤ s u)
+    (mono : ∀ u v, T / 2 ≤ u → u ≤ v → v ≤ T → s u ≤ s v)
+    (lo hi : ℚ) (h : lo ≤ hi) :
+    ∃ p, cosI T (hi - lo) (fmodR lo T) (fmodR hi T) (s (fmodR lo T)) (s (fmodR hi T)) = .ok p := by
+  obtain ⟨dl, dl0, dlT⟩ := fmodR_decomp lo T hT
+  obtain ⟨dh, dh0, dhT⟩ := fmodR_decomp hi T hT
+  have hv := cosVec_eq_scalar (hi - lo) (fmodR lo T) (fmodR hi T) T hT dl0 (le_of_lt dlT) dh0 (le_of_lt dhT)
+  have hs := cos_sound s T hT per bd anti mono lo hi lo _ _ _ _ _ _ dl dl0 dlT dh dh0 dhT dl dl0 dlT (le_refl _) h _ hv
+  unfold cosI trigI mkI
+  rw [hv]; dsimp only
+  rw [if_pos (le_trans hs.1 hs.2)]
+  exact ⟨_, rfl⟩
+
+/-- **tangent encloses**: when the model returns a bounded interval, no point of `[lo,hi]` reduces to
+the pole `P/2` and the interval contains `t x` for all `x ∈ [lo,hi]`; `t` is any function with period
+`P`, increasing on `[0,P/2)` and on `(P/2,P]`. -/
+theorem tan_encloses (t : ℚ → ℚ) (P : ℚ) (hP : 0 < P)
+    (per : ∀ (x : ℚ) (k : ℤ), t (x + k * P) = t x)
+    (m1 : ∀ u v, 0 ≤ u → u ≤ v → v < P / 2 → t u ≤ t v)
+    (m2 : ∀ u v, P / 2 < u → u ≤ v → v ≤ P → t u ≤ t v)
+    (lo hi x : ℚ) (h1 : lo ≤ x) (h2 : x ≤ hi) (p : ℚ × ℚ)
+    (hp : tanI P (hi - lo) (fmodR lo P) (fmodR hi P) (t (fmodR lo P)) (t (fmodR hi P)) = .ok (some p)) :
+    fmodR x P ≠ P / 2 ∧ p.1 ≤ t x ∧ t x ≤ p.2 := by
+  obtain ⟨dl, dl0, dlT⟩ := fmodR_decomp lo P hP
+  obtain ⟨dh, dh0, dhT⟩ := fmodR_decomp hi P hP
+  obtain ⟨dx, dx0, dxT⟩ := fmodR_decomp x P hP
+  unfold tanI at hp
+  cases hc : tanInf (hi - lo) (fmodR lo P) (fmodR hi P) P with
+  | true => rw [hc] at hp; simp at hp
+  | false =>
+    rw [hc] at hp
+    simp only [Bool.false_eq_true, if_false] at hp
+    cases hm : mkI (t (fmodR lo P)) (t (fmodR hi P)) with
+    | error e => rw [hm] at hp; cases hp
+    | ok q =>
+      rw [hm] at hp
+      obtain ⟨e, _⟩ := mkI_ok hm
+      have : p = q := by cases hp; rfl
+      rw [this, e]
+      exact tan_sound t P hP per m1 m2 lo hi x _ _ _ _ _ _ dl dl0 dlT dh dh0 dhT dx dx0 dxT h1 h2 hc
+
+/-- the tangent never trips the constructor's assertion on a proper interval -/
+theorem tan_returns (t : ℚ → ℚ) (P : ℚ) (hP : 0 < P)
+    (per : ∀ (x : ℚ) (k : ℤ), t (x + k * P) = t x)
+    (m1 : ∀ u v, 0 ≤ u → u ≤ v → v < P / 2 → t u ≤ t v)
+    (m2 : ∀ u v, P / 2 < u → u ≤ v → v ≤ P → t u ≤ t v)
+    (lo hi : ℚ) (h : lo ≤ hi) :
+    ∃ r, tanI P (hi - lo) (fmodR lo P) (fmodR hi P) (t (fmodR lo P)) (t (fmodR hi P)) = .ok r := by
+  obtain ⟨dl, dl0, dlT⟩ := fmodR_decomp lo P hP
+  obtain ⟨dh, dh0, dhT⟩ := fmodR_decomp hi P hP
+  unfold tanI
+  cases hc : tanInf (hi - lo) (fmodR lo P) (fmodR hi P) P with
+  | true => exact ⟨none, by simp⟩
+  | false =>
+    have hs := tan_sound t P hP per m1 m2 lo hi lo _ _ _ _ _ _ dl dl0 dlT dh dh0 dhT dl dl0 dlT (le_refl _) h hc
+    have e : t lo = t (fmodR lo P) := by
+      conv_lhs => rw [dl]
+      exact per _ _
+    simp only [Bool.false_eq_true, if_false, mkI]
+    rw [if_pos (by rw [← e]; exact hs.2.2)]
+    exact ⟨_, rfl⟩
+
+/-- array form = scalar form, element by element (sine, cosine): on reduced endpoints the value the
+masked assignments of `sin_vector` / `cos_vector` leave in an element is what `sin` / `cos` return -/
+theorem sinA_elem_eq_scalar (T w yl yh sl sh : ℚ) (hT : 0 < T) (hyl0 : 0 ≤ yl) (hylT : yl ≤ T) (hyh0 : 0 ≤ yh) (hyhT : yh ≤ T) :
+    sinI T w yl yh sl sh = mkI (sinVecEl T w yl yh sl sh).1 (sinVecEl T w yl yh sl sh).2 := by
+  unfold sinI trigI sinVecEl
+  rw [sinVec_eq_scalar w yl yh T hT hyl0 hylT hyh0 hyhT]
+
+theorem cosA_elem_eq_scalar (T w yl yh sl sh : ℚ) (hT : 0 < T) (hyl0 : 0 ≤ yl) (hylT : yl ≤ T) (hyh0 : 0 ≤ yh) (hyhT : yh ≤ T) :
+    cosI T w yl yh sl sh = mkI (cosVecEl T w yl yh sl sh).1 (cosVecEl T w yl yh sl sh).2 := by
+  unfold cosI trigI cosVecEl
+  rw [cosVec_eq_scalar w yl yh T hT hyl0 hylT hyh0 hyhT]
+
+theorem mkA_ok {l r : List (ℚ × ℚ)} (h : mkA l = .ok r) : r = l := by
+  unfold mkA at h
+  split_ifs at h
+  cases h; rfl
+
+/-- the array result is the list of per-element results -/
+theorem sinA_elementwise (T : ℚ) (xs : List TrigArg) (r : List (ℚ × ℚ)) (h : sinA T xs = .ok r) :
+    r = xs.map (fun x => sinVecEl T x.w x.yl x.yh x.sl x.sh) := mkA_ok h
+
+theorem cosA_elementwise (T : ℚ) (xs : List TrigArg) (r : List (ℚ × ℚ)) (h : cosA T xs = .ok r) :
+    r = xs.map (fun x => cosVecEl T x.w x.yl x.yh x.sl x.sh) := mkA_ok h
+
+/-- tangent: array and scalar forms take the same decision and use the same endpoint values -/
+theorem tanA_elementwise (P : ℚ) (xs : List TrigArg) (r : List (Option (ℚ × ℚ))) (h : tanA P xs = .ok r) :
+    r = xs.map (fun x => if tanInf x.w x.yl x.yh P then none else some (x.sl, x.sh)) := by
+  unfold tanA at h
+  simp only at h
+  split_ifs at h
+  cases h; rfl
+
+theorem tanI_eq_elem (P w zl zh tl th : ℚ) (h : tl ≤ th) :
+    tanI P w zl zh tl th = .ok (if tanInf w zl zh P then none else some (tl, th)) := by
+  unfold tanI mkI
+  split_ifs <;> rfl
+
+
+/-! ## abs, exp, sqrt, log -/
+
+
+theorem absR_eq (x : ℚ) : absR x = |x| := by
+  unfold absR
+  split_ifs with h
+  · exact (abs_of_neg h).symm
+  · exact (abs_of_nonneg (not_lt.mp h)).symm
+
+/-- `abs` returns exactly `[min |x|, max |x|]` over `x ∈ [lo,hi]` -/
+theorem abs_exact (lo hi : ℚ) (h : lo ≤ hi) :
+    (absI lo hi).1 ≤ (absI lo hi).2 ∧
+    (∀ x, lo ≤ x → x ≤ hi → (absI lo hi).1 ≤ |x| ∧ |x| ≤ (absI lo hi).2) ∧
+    (∃ x, lo ≤ x ∧ x ≤ hi ∧ |x| = (absI lo hi).1) ∧
+    (∃ x, lo ≤ x ∧ x ≤ hi ∧ |x| = (absI lo hi).2) := by
+  unfold absI
+  simp only [absR_eq, ge_iff_le]
+  have hsound : ∀ x, lo ≤ x → x ≤ hi → (if lo ≤ 0 ∧ 0 ≤ hi then 0 else min |lo| |hi|) ≤ |x| ∧ |x| ≤ max |lo| |hi| := by
+    intro x h1 h2
+    refine ⟨?_, abs_le_max_abs_abs h1 h2⟩
+    split_ifs with hz
+    · exact abs_nonneg x
+    · rcases not_and_or.mp hz with hz | hz
+      · have : 0 < lo := not_le.mp hz
+        rw [abs_of_pos this, abs_of_pos (by linarith : 0 < x)]
+        exact le_trans (min_le_left _ _) h1
+      · have : hi < 0 := not_le.mp hz
+        rw [abs_of_neg this, abs_of_neg (by linarith : x < 0)]
+        exact le_trans (min_le_right _ _) (by linarith)
+  refine ⟨le_trans (hsound lo (le_refl _) h).1 (hsound lo (le_refl _) h).2, hsound, ?_, ?_⟩
+  · split_ifs with hz
+    · exact ⟨0, hz.1, hz.2, abs_zero⟩
+    · rcases min_choice |lo| |hi| with e | e <;> rw [e]
+      · exact ⟨lo, le_refl _, h, rfl⟩
+      · exact ⟨hi, h, le_refl _, rfl⟩
+  · rcases max_choice |lo| |hi| with e | e <;> rw [e]
+    · exact ⟨lo, le_refl _, h, rfl⟩
+    · exact ⟨hi, h, le_refl _, rfl⟩
+
+/-- endpoint evaluation of a function monotone on `[lo,hi]` (exp) is the exact range -/
+theorem mono_exact (f : ℚ → ℚ) (lo hi : ℚ) (h : lo ≤ hi)
+    (hf : ∀ u v, lo ≤ u → u ≤ v → v ≤ hi → f u ≤ f v) :
+    expI (f lo) (f hi) = .ok (f lo, f hi) ∧
+    (∀ x, lo ≤ x → x ≤ hi → f lo ≤ f x ∧ f x ≤ f hi) ∧
+    (∃ x, lo ≤ x ∧ x ≤ hi ∧ f x = f lo) ∧ (∃ x, lo ≤ x ∧ x ≤ hi ∧ f x = f hi) := by
+  refine ⟨?_, ?_, ⟨lo, le_refl _, h, rfl⟩, ⟨hi, h, le_refl _, rfl⟩⟩
+  · unfold expI mkI; rw [if_pos (hf lo hi (le_refl _) h (le_refl _))]
+  · intro x h1 h2; exact ⟨hf lo x (le_refl _) h1 h2, hf x hi h1 h2 (le_refl _)⟩
+
+/-- sqrt on its domain: exact range of any function monotone on `[lo,hi]`, `0 ≤ lo` -/
+theorem sqrt_exact (f : ℚ → ℚ) (lo hi : ℚ) (h0 : 0 ≤ lo) (h : lo ≤ hi)
+    (hf : ∀ u v, lo ≤ u → u ≤ v → v ≤ hi → f u ≤ f v) :
+    sqrtI lo hi (f lo) (f hi) = .ok (f lo, f hi) ∧
+    (∀ x, lo ≤ x → x ≤ hi → f lo ≤ f x ∧ f x ≤ f hi) := by
+  constructor
+  · unfold sqrtI
+    rw [if_neg (not_lt.mpr h0), if_neg (not_lt.mpr (le_trans h0 h))]
+    show mkI (f lo) (f hi) = _
+    unfold mkI; rw [if_pos (hf lo hi (le_refl _) h (le_refl _))]
+  · intro x h1 h2; exact ⟨hf lo x (le_refl _) h1 h2, hf x hi h1 h2 (le_refl _)⟩
+
+/-- an interval reaching below 0 is outside the domain of sqrt: the call raises -/
+theorem sqrt_domain (lo hi a b : ℚ) (h : lo < 0) : sqrtI lo hi a b = .error .Assertion := by
+  unfold sqrtI; rw [if_pos h]; split_ifs <;> rfl
+
+theorem log_exact (f : ℚ → ℚ) (lo hi : ℚ) (h0 : 0 < lo) (h : lo ≤ hi)
+    (hf : ∀ u v, lo ≤ u → u ≤ v → v ≤ hi → f u ≤ f v) :
+    logI lo (f lo) (f hi) = .ok (f lo, f hi) ∧
+    (∀ x, lo ≤ x → x ≤ hi → f lo ≤ f x ∧ f x ≤ f hi) := by
+  constructor
+  · unfold logI mkI; rw [if_pos h0, if_pos (hf lo hi (le_refl _) h (le_refl _))]
+  · intro x h1 h2; exact ⟨hf lo x (le_refl _) h1 h2, hf x hi h1 h2 (le_refl _)⟩
+
+/-- an interval containing a non-positive number is outside the domain of log: the call raises -/
+theorem log_domain (lo a b : ℚ) (h : lo ≤ 0) : logI lo a b = .error .Assertion := by
+  unfold logI; rw [if_neg (not_lt.mpr h)]
+
+/-- the array forms raise as soon as one element is outside the domain -/
+theorem logA_domain (los a b : List ℚ) (x : ℚ) (hx : x ∈ los) (h : x ≤ 0) : logA los a b = .error .Assertion := by
+  unfold logA
+  rw [if_neg]
+  intro hall
+  have := List.all_eq_true.mp hall x hx
+  simp only [gt_iff_lt, decide_eq_true_eq] at this
+  exact absurd this (not_lt.mpr h)
+
+
+/-! ## integer powers -/
+
+
+theorem even_pow_le_max (n : ℕ) (hev : Even n) (lo hi x : ℚ) (h1 : lo ≤ x) (h2 : x ≤ hi) :
+    x ^ n ≤ max (lo ^ n) (hi ^ n) := by
+  have hx : |x| ≤ max |lo| |hi| := abs_le_max_abs_abs h1 h2
+  rcases le_max_iff.mp hx with h | h
+  · refine le_trans ?_ (le_max_left _ _)
+    calc x ^ n = |x| ^ n := (hev.pow_abs x).symm
+      _ ≤ |lo| ^ n := pow_le_pow_left₀ (abs_nonneg x) h n
+      _ = lo ^ n := hev.pow_abs lo
+  · refine le_trans ?_ (le_max_right _ _)
+    calc x ^ n = |x| ^ n := (hev.pow_abs x).symm
+      _ ≤ |hi| ^ n := pow_le_pow_left₀ (abs_nonneg x) h n
+      _ = hi ^ n := hev.pow_abs hi
+
+/-- non-negative integer power: the parity logic encloses `x^n` for every `x ∈ [lo,hi]` -/
+theorem pow_sound (n : ℕ) (lo hi x : ℚ) (h1 : lo ≤ x) (h2 : x ≤ hi) :
+    (powNat n lo hi).1 ≤ x ^ n ∧ x ^ n ≤ (powNat n lo hi).2 := by
+  unfold powNat
+  simp only
+  split_ifs with he h0 hneg
+  · have hev : Even n := Nat.even_iff.mpr he
+    exact ⟨pow_le_pow_left₀ (le_of_lt h0) h1 n, even_pow_le_max n hev lo hi x h1 h2⟩
+  · have hev : Even n := Nat.even_iff.mpr he
+    refine ⟨?_, even_pow_le_max n hev lo hi x h1 h2⟩
+    calc hi ^ n = |hi| ^ n := (hev.pow_abs hi).symm
+      _ ≤ |x| ^ n := by
+          apply pow_le_pow_left₀ (abs_nonneg hi)
+          rw [abs_of_neg hneg, abs_of_neg (by linarith : x < 0)]; linarith
+      _ = x ^ n := hev.pow_abs x
+  · have hev : Even n := Nat.even_iff.mpr he
+    exact ⟨hev.pow_nonneg x, even_pow_le_max n hev lo hi x h1 h2⟩
+  · have hodd : Odd n := Nat.odd_iff.mpr (by omega)
+    have hm := (hodd.strictMono_pow (R := ℚ)).monotone
+    exact ⟨le_trans (min_le_left _ _) (hm h1), le_trans (hm h2) (le_max_right _ _)⟩
+
+/-- the bounds are ordered, so the constructor's assertion never fires for `k ≥ 0` -/
+theorem powI_nonneg (k : ℤ) (hk : 0 ≤ k) (lo hi : ℚ) (h : lo ≤ hi) :
+    powI k lo hi = .ok (powNat k.natAbs lo hi) := by
+  unfold powI
+  rw [if_neg (not_lt.mpr hk)]
+  have := pow_sound k.natAbs lo hi lo (le_refl _) h
+  simp only [mkI]
+  rw [if_pos (le_trans this.1 this.2)]
+
+/-- even powers (n ≥ 1) and odd powers return the exact range: both bounds are attained -/
+theorem pow_exact (n : ℕ) (hn : n ≠ 0) (lo hi : ℚ) (h : lo ≤ hi) :
+    (∃ x, lo ≤ x ∧ x ≤ hi ∧ x ^ n = (powNat n lo hi).1) ∧
+    (∃ x, lo ≤ x ∧ x ≤ hi ∧ x ^ n = (powNat n lo hi).2) := by
+  unfold powNat
+  simp only
+  have hmax : ∃ x, lo ≤ x ∧ x ≤ hi ∧ x ^ n = max (lo ^ n) (hi ^ n) := by
+    rcases max_choice (lo ^ n) (hi ^ n) with e | e <;> rw [e]
+    · exact ⟨lo, le_refl _, h, rfl⟩
+    · exact ⟨hi, h, le_refl _, rfl⟩
+  split_ifs with he h0 hneg
+  · exact ⟨⟨lo, le_refl _, h, rfl⟩, hmax⟩
+  · exact ⟨⟨hi, h, le_refl _, rfl⟩, hmax⟩
+  · exact ⟨⟨0, not_lt.mp h0, not_lt.mp hneg, zero_pow hn⟩, hmax⟩
+  · refine ⟨?_, hmax⟩
+    rcases min_choice (lo ^ n) (hi ^ n) with e | e <;> rw [e]
+    · exact ⟨lo, le_refl _, h, rfl⟩
+    · exact ⟨hi, h, le_refl _, rfl⟩
+
+theorem recipI_sound (a b : ℚ) (hab : a ≤ b) (h0 : ¬ (a ≤ 0 ∧ 0 ≤ b)) :
+    recipI a b = .ok (1 / b, 1 / a) ∧ ∀ y, a ≤ y → y ≤ b → 1 / b ≤ 1 / y ∧ 1 / y ≤ 1 / a := by
+  have hsign : 0 < a ∨ b < 0 := by
+    rcases lt_or_ge 0 a with h | h
+    · exact Or.inl h
+    · exact Or.inr (not_le.mp (fun hb => h0 ⟨h, hb⟩))
+  have key : ∀ y, a ≤ y → y ≤ b → 1 / b ≤ 1 / y ∧ 1 / y ≤ 1 / a := by
+    intro y h1 h2
+    rcases hsign with h | h
+    · exact ⟨one_div_le_one_div_of_le (by linarith) h2, one_div_le_one_div_of_le h h1⟩
+    · exact ⟨one_div_le_one_div_of_neg_of_le h h2 |>.trans_eq' rfl |> fun t => by simpa using t,
+        by simpa using one_div_le_one_div_of_neg_of_le (by linarith : y < 0) h1⟩
+  refine ⟨?_, key⟩
+  unfold recipI mkI
+  rw [if_neg (by simpa [ge_iff_le] using h0)]
+  have := key a (le_refl _) hab
+  rw [if_pos (le_trans this.1 this.2)]
+
+/-- negative exponent on an interval not containing 0: the reciprocal of the positive power encloses
+`(x^n)⁻¹` for every `x ∈ [lo,hi]` -/
+theorem pow_neg_sound (k : ℤ) (hk : k < 0) (lo hi : ℚ) (h : lo ≤ hi) (h0 : ¬ (lo ≤ 0 ∧ 0 ≤ hi)) :
+    ∃ a b, powI k lo hi = .ok (a, b) ∧ ∀ x, lo ≤ x → x ≤ hi → a ≤ 1 / x ^ k.natAbs ∧ 1 / x ^ k.natAbs ≤ b := by
+  have hn : k.natAbs ≠ 0 := by omega
+  set n := k.natAbs with hn'
+  have hs := pow_sound n lo hi
+  have hord := le_trans (hs lo (le_refl _) h).1 (hs lo (le_refl _) h).2
+  -- 0 is not in the positive power
+  have hz : ¬ ((powNat n lo hi).1 ≤ 0 ∧ 0 ≤ (powNat n lo hi).2) := by
+    obtain ⟨⟨xl, xl1, xl2, exl⟩, ⟨xh, xh1, xh2, exh⟩⟩ := pow_exact n hn lo hi h
+    rintro ⟨p, q⟩
+    have hsign : 0 < lo ∨ hi < 0 := by
+      rcases lt_or_ge 0 lo with h' | h'
+      · exact Or.inl h'
+      · exact Or.inr (not_le.mp (fun hb => h0 ⟨h', hb⟩))
+    rcases hsign with hpos | hneg
+    · have : 0 < xl ^ n := pow_pos (by linarith) n
+      linarith
+    · rcases Nat.even_or_odd n with hev | hodd
+      · have : 0 < xl ^ n := hev.pow_pos (by intro e; rw [e] at xl2; linarith)
+        linarith
+      · have : xh ^ n < 0 := hodd.pow_neg (by linarith)
+        linarith
+  obtain ⟨hr, hkey⟩ := recipI_sound _ _ hord hz
+  refine ⟨1 / (powNat n lo hi).2, 1 / (powNat n lo hi).1, ?_, ?_⟩
+  · unfold powI
+    rw [if_pos hk]
+    simp only [mkI, ← hn']
+    rw [if_pos hord]
+    exact hr
+  · intro x h1 h2
+    exact hkey (x ^ n) (hs x h1 h2).1 (hs x h1 h2).2
+
+/-- negative exponent with the pole 0 inside the interval: the call raises `ZeroDivisionError` -/
+theorem pow_neg_pole_raises (k : ℤ) (hk : k < 0) (lo hi : ℚ) (h : lo ≤ hi) (h0 : lo ≤ 0 ∧ 0 ≤ hi) :
+    powI k lo hi = .error .ZeroDivision := by
+  have hn : k.natAbs ≠ 0 := by omega
+  have hs := pow_sound k.natAbs lo hi
+  have hord := le_trans (hs lo (le_refl _) h).1 (hs lo (le_refl _) h).2
+  have hz := hs 0 h0.1 h0.2
+  rw [zero_pow hn] at hz
+  unfold powI
+  rw [if_pos hk]
+  simp only [mkI]
+  rw [if_pos hord]
+  dsimp only [recipI]
+  rw [if_pos ⟨hz.1, hz.2⟩]
+
+
+/-! ## logistic function, tanh -/
+
+
+/-- the logistic function `1/(1+exp(-x))`, for ANY positive monotone `E` in place of `exp`:
+no assertion fires and the result is the exact range (every variable occurs once) -/
+theorem sigmoid_exact (E : ℚ → ℚ) (hpos : ∀ x, 0 < E x) (hmono : ∀ u v, u ≤ v → E u ≤ E v)
+    (lo hi : ℚ) (h : lo ≤ hi) :
+    sigmoidI (E (-hi)) (E (-lo)) = .ok (1 / (1 + E (-lo)), 1 / (1 + E (-hi))) ∧
+    ∀ x, lo ≤ x → x ≤ hi →
+      1 / (1 + E (-lo)) ≤ 1 / (1 + E (-x)) ∧ 1 / (1 + E (-x)) ≤ 1 / (1 + E (-hi)) := by
+  have h1 : E (-hi) ≤ E (-lo) := hmono _ _ (by linarith)
+  constructor
+  · unfold sigmoidI mkI
+    rw [if_pos h1]; dsimp only
+    rw [if_pos (by linarith : 1 + E (-hi) ≤ 1 + E (-lo))]; dsimp only
+    unfold recipI mkI
+    rw [if_neg (by intro hc; have := hpos (-hi); linarith [hc.1])]
+    rw [if_pos (one_div_le_one_div_of_le (by have := hpos (-hi); linarith) (by linarith))]
+  · intro x hx1 hx2
+    have a1 : E (-hi) ≤ E (-x) := hmono _ _ (by linarith)
+    have a2 : E (-x) ≤ E (-lo) := hmono _ _ (by linarith)
+    have p1 := hpos (-hi); have p2 := hpos (-x)
+    exact ⟨one_div_le_one_div_of_le (by linarith) (by linarith),
+           one_div_le_one_div_of_le (by linarith) (by linarith)⟩
+
+/-- `methods.tanh` = `1 - 2/(1+exp(2x))`, for any positive monotone `E`: exact range -/
+theorem tanh_exact (E : ℚ → ℚ) (hpos : ∀ x, 0 < E x) (hmono : ∀ u v, u ≤ v → E u ≤ E v)
+    (lo hi : ℚ) (h : lo ≤ hi) :
+    tanhI (E (2 * lo)) (E (2 * hi)) = .ok (1 - 2 / (1 + E (2 * lo)), 1 - 2 / (1 + E (2 * hi))) ∧
+    ∀ x, lo ≤ x → x ≤ hi →
+      1 - 2 / (1 + E (2 * lo)) ≤ 1 - 2 / (1 + E (2 * x)) ∧ 1 - 2 / (1 + E (2 * x)) ≤ 1 - 2 / (1 + E (2 * hi)) := by
+  have key : ∀ u v, u ≤ v → 2 / (1 + E (2 * v)) ≤ 2 / (1 + E (2 * u)) := by
+    intro u v huv
+    have := hmono (2 * u) (2 * v) (by linarith)
+    have p := hpos (2 * u)
+    exact div_le_div_of_nonneg_left (by norm_num) (by linarith) (by linarith)
+  have h1 : E (2 * lo) ≤ E (2 * hi) := hmono _ _ (by linarith)
+  constructor
+  · unfold tanhI mkI
+    rw [if_pos h1]; dsimp only
+    rw [if_pos (by linarith : 1 + E (2 * lo) ≤ 1 + E (2 * hi))]; dsimp only
+    rw [if_neg (by intro hc; have := hpos (2 * lo); linarith [hc.1])]
+    rw [if_pos (key lo hi h)]; dsimp only
+    rw [if_pos (by have := key lo hi h; linarith)]
+  · intro x hx1 hx2
+    have := key lo x hx1; have := key x hi hx2
+    constructor <;> linarith
+
+
+
+/-! ## non-vacuity: the hypotheses are satisfiable, and concrete evaluations of the model take the
+non-trivial branches (wrapped endpoints, poles, negative powers, domain errors) -/
+
+example : ∃ (s : ℚ → ℚ) (T : ℚ), 0 < T ∧ (∀ (x : ℚ) (k : ℤ), s (x + k * T) = s x) ∧ (∀ x, -1 ≤ s x ∧ s x ≤ 1) ∧
+    (∀ u v, 0 ≤ u → u ≤ v → v ≤ T / 4 → s u ≤ s v) ∧ (∀ u v, T / 4 ≤ u → u ≤ v → v ≤ 3 * (T / 4) → s v ≤ s u) ∧
+    (∀ u v, 3 * (T / 4) ≤ u → u ≤ v → v ≤ T → s u ≤ s v) ∧
+    (∀ u v, 0 ≤ u → u ≤ v → v ≤ T / 2 → s v ≤ s u) ∧ (∀ u v, T / 2 ≤ u → u ≤ v → v ≤ T → s u ≤ s v) :=
+  ⟨fun _ => 0, 8, by norm_num, fun _ _ => rfl, fun _ => by norm_num, fun _ _ _ _ _ => le_refl _,
+    fun _ _ _ _ _ => le_refl _, fun _ _ _ _ _ => le_refl _, fun _ _ _ _ _ => le_refl _, fun _ _ _ _ _ => le_refl _⟩
+
+-- period 8 (quarter 2): [-1,1] wraps through 0 -> [s yl, s yh]; [1,3] contains the maximum; [6,7] for cos
+example : sinShape 2 (fmodR (-1) 8) (fmodR 1 8) 8 = some .lh := by decide +kernel
+example : sinShape 2 (fmodR 1 8) (fmodR 3 8) 8 = some .minTo1 := by decide +kernel
+example : sinShape 7 (fmodR 1 8) (fmodR 8 8) 8 = some .full := by decide +kernel
+example : sinVecShape 2 (fmodR 2 8) (fmodR 6 8) 8 = .hl := by decide +kernel
+example : cosShape 2 (fmodR 7 8) (fmodR 9 8) 8 = some .minTo1 := by decide +kernel
+example : cosShape 8 (fmodR (-16) 8) (fmodR (-8) 8) 8 = some .full := by decide +kernel
+example : cosVecShape 8 (fmodR (-16) 8) (fmodR (-8) 8) 8 = .full := by decide +kernel
+example : tanInf 4 (fmodR 0 4) (fmodR 4 4) 4 = true := by decide +kernel
+example : tanInf 1 (fmodR 1 4) (fmodR (5/2) 4) 4 = true := by decide +kernel
+example : tanInf 1 (fmodR 3 4) (fmodR (9/2) 4) 4 = false := by decide +kernel
+example : absI (-2) 1 = (0, 2) := by decide +kernel
+example : powI (-2) 1 2 = .ok (1/4, 1) := by decide +kernel
+example : powI (-1) (-1) 2 = .error .ZeroDivision := by decide +kernel
+example : powI 2 (-1) 2 = .ok (0, 4) := by decide +kernel
+example : powI 0 (-1) 2 = .ok (0, 1) := by decide +kernel      -- sound, not tight (n = 0 is excluded from pow_exact)
+example : powA .int (-1) [1, -1] [2, 2] = .error .ZeroDivision := by decide +kernel
+example : logI 0 0 1 = .error .Assertion := by decide +kernel
+example : sqrtI (-1) 4 0 2 = .error .Assertion := by decide +kernel
+
+example : ∃ E : ℚ → ℚ, (∀ x, 0 < E x) ∧ (∀ u v, u ≤ v → E u ≤ E v) ∧ E (-1) < E 1 :=
+  ⟨fun x => if x < 0 then 1 else 2,
+   fun x => by dsimp only; split_ifs <;> norm_num,
+   fun u v h => by dsimp only; split_ifs with a b <;> first | (exfalso; simp only [not_lt] at *; linarith) | norm_num,
+   by norm_num⟩
+
+example : ∃ (t : ℚ → ℚ) (P : ℚ), 0 < P ∧ (∀ (x : ℚ) (k : ℤ), t (x + k * P) = t x) ∧
+    (∀ u v, 0 ≤ u → u ≤ v → v < P / 2 → t u ≤ t v) ∧ (∀ u v, P / 2 < u → u ≤ v → v ≤ P → t u ≤ t v) :=
+  ⟨fun _ => 0, 4, by norm_num, fun _ _ => rfl, fun _ _ _ _ _ => le_refl _, fun _ _ _ _ _ => le_refl _⟩
 
 end Pun.Elem
